@@ -9,7 +9,8 @@ EXPLANATION = (
     "associative, the loop stops on l_bp < min_bp, prefix operators recurse with a power inside their class window, "
     "the token sets of the power table and of parse_infix are equal; every `negated` flag in the evaluator is "
     "combined with its base predicate by (in)equality and never by a short-circuit; every expression, operator and "
-    "function variant has an evaluator arm that does not panic.")
+    "function variant has an evaluator arm that does not panic; the optimizer's translation of comparisons into index "
+    "range bounds uses the side and inclusiveness the operator means, for both operand orders (C05.6).")
 NOT_DECIDED = ("three-valued logic beyond the negation flag, join pairing, aggregates, ORDER BY/LIMIT arithmetic, "
                "affected-row counts (value-level)")
 ASSUMPTIONS = ["SQL precedence classes as listed in rules/c05.py"]
@@ -257,3 +258,89 @@ def check(cx):
     from . import c06
     cx.include(c06, {"C06.4"}, "C05.5", "shared with C06.4: join reordering and filter pushdown are applied to inner/cross joins only "
                "(outer-join rows must be NULL-extended before WHERE predicates on the inner side are evaluated)", floor=3)
+
+    # ---- C05.6 index range bounds follow the comparison operators --------------------------------------------
+    r6 = cx.rule("C05.6", "TAB: in FilterToIndexScanRule::collect_bounds each comparison arm that turns `column op literal` "
+                 "(or `literal op column`) into an index bound pushes onto the side and with the inclusiveness the operator "
+                 "means: = start&end inclusive; col>lit / lit<col start exclusive; col>=lit / lit<=col start inclusive; "
+                 "col<lit / lit>col end exclusive; col<=lit / lit>=col end inclusive; every other operator reaches the "
+                 "residual predicate", floor=12)
+    CB = "sql::planner::rules::FilterToIndexScanRule::collect_bounds"
+    f = cx.guard(r6, "collect_bounds", p.fn, CB)
+    if f:
+        # parameters: self, index_id, expr, indexed_columns, range_start, range_end, residual
+        pn = {}
+        for k, v in f.names.items():
+            if isinstance(v, list) and len(v) == 1 and v[0] <= f.nargs:
+                pn[k.split("#")[0]] = v[0]
+        START, END, RES = pn.get("range_start"), pn.get("range_end"), pn.get("residual")
+        if None in (START, END, RES):
+            # positional fallback (a renamed parameter is not a violation)
+            START, END, RES = 5, 6, 7
+        side_refs = {}
+        for b in f.blocks:
+            for st in b["stmts"]:
+                if st["rv"].get("r") == "ref" and len(st["dst"]) == 1:
+                    for pe in st["rv"]["p"][1:]:
+                        if isinstance(pe, str) and pe.startswith(".left:"):
+                            side_refs[st["dst"][0]] = "left"
+                        if isinstance(pe, str) and pe.startswith(".right:"):
+                            side_refs[st["dst"][0]] = "right"
+        eci = [c for c in f.calls() if c.callee.endswith("::extract_column_info")]
+        pushes = [c for c in f.calls() if c.callee.endswith("Vec::<T, A>::push")]
+
+        def push_target(c):
+            d = {x[1] for x in f.nearest_calls(op_local(c.args[0])) if x[0] == "param"}   # the reborrowed parameter
+            hit = [n for n, l in (("start", START), ("end", END), ("residual", RES)) if l in d]
+            return hit[0] if len(hit) == 1 else None
+
+        WANT = {
+            "left": {"Eq": ({"start", "end"}, {1}), "Gt": ({"start"}, {0}), "Ge": ({"start"}, {1}), "Lt": ({"end"}, {0}), "Le": ({"end"}, {1})},
+            # literal on the left: the operator is mirrored
+            "right": {"Eq": ({"start", "end"}, {1}), "Lt": ({"start"}, {0}), "Le": ({"start"}, {1}), "Gt": ({"end"}, {0}), "Ge": ({"end"}, {1})},
+        }
+        seen_sides = set()
+        for bi, adt, m, oth, src in enum_switches(p, f):
+            if adt != "sql::parser::ast::BinaryOperator" or len(m) < 2:
+                continue
+            dom = [c for c in eci if f.dominates(c.bb, bi)]
+            if not dom:
+                continue
+            last = max(dom, key=lambda c: sum(1 for d_ in dom if f.dominates(d_.bb, c.bb)))
+            sides = {side_refs[l] for l in f.dep_closure(op_local(last.args[0])) if l in side_refs}
+            if len(sides) != 1:
+                cx.bad(r6, "side-unknown@%s" % sorted(m), last.where(), "cannot tell which operand is the column")
+                continue
+            side = sides.pop()
+            seen_sides.add(side)
+            for var in ("Eq", "Lt", "Le", "Gt", "Ge"):
+                key = "%s:%s" % ("col-op-lit" if side == "left" else "lit-op-col", var)
+                if var not in m:
+                    # not used as a bound: must reach the residual push (sound, merely slower)
+                    reach = f.reachable(oth)
+                    cx.verdict(any(push_target(c) == "residual" and c.bb in reach for c in pushes), r6, key, f.where(),
+                               "kept as residual predicate", "operator %s is neither a bound nor kept as residual" % var)
+                    continue
+                reg = dominated(f, m[var])
+                vecs = {push_target(c) for c in pushes if c.bb in reg}
+                incl = set()
+                for b_ in reg:
+                    for st in f.blocks[b_]["stmts"]:
+                        rv = st["rv"]
+                        if rv.get("r") == "agg" and str(rv.get("adt", "")).endswith("IndexRangeBound"):
+                            i = rv["fields"].index("inclusive")
+                            k = op_const(rv["o"][i])
+                            incl.add(k.get("v") if k else "non-constant")
+                wv, wi = WANT[side][var]
+                cx.verdict(vecs == wv and incl == wi, r6, key, f.where(), "pushes %s, inclusive=%s" % (sorted(vecs), sorted(incl)),
+                           "the `%s` arm for %s pushes onto %s with inclusive=%s, the operator means %s with inclusive=%s: the "
+                           "index scan returns a different row set than the filter it replaces (boundary row lost or added)" % (
+                               var, "column-op-literal" if side == "left" else "literal-op-column", sorted(str(x) for x in vecs),
+                               sorted(str(x) for x in incl), sorted(wv), sorted(wi)))
+            # operators without an arm fall through to the residual
+            reach = f.reachable(oth)
+            cx.verdict(any(push_target(c) == "residual" and c.bb in reach for c in pushes), r6,
+                       "%s:other-operators" % ("col-op-lit" if side == "left" else "lit-op-col"), f.where(),
+                       "other operators reach residual.push", "operators without a bound arm are dropped instead of being kept as residual")
+        if seen_sides != {"left", "right"}:
+            cx.bad(r6, "sides", f.where(), "expected one operator table per operand order, found %s" % sorted(seen_sides))
